@@ -390,6 +390,8 @@ class Path:
     def check(self, e=None):
         eng = self.engine
         t0 = time.time()
+        if eng.deadline is not None and t0 > eng.deadline + 5:
+            raise Unsupported('time budget of %ds for this harness exceeded inside a path (undecided)' % eng.harness_budget_s)
         quant = self.has_quant()
         if quant:
             self.solver.set('timeout', min(eng.branch_timeout_ms, eng.quant_first_try_ms))
@@ -481,6 +483,8 @@ class Engine:
         self.stats = dict(solver_calls=0, solver_time=0.0, paths=0)
         self.branch_timeout_ms = 5000
         self.prove_timeout_ms = 20000
+        self.harness_budget_s = 90         # wall-clock budget per harness; exceeding it is "undecided", never a verdict
+        self.deadline = None
         self.quant_first_try_ms = 800      # first attempt on queries with quantified assumptions before qinst takes over
         self.results = []
         self.yield_handlers = []
@@ -647,6 +651,9 @@ class Engine:
                 return self.truth(self.call(BoundMethod(f, v), [], {}))
             if v.cls.name in self.models.TRUTH_MODELS:
                 return self.models.TRUTH_MODELS[v.cls.name](self, v)
+            if v.cls.builtin and v.cls.name not in self.models.ALWAYS_TRUTHY and not v.cls.issubclass(EXC['BaseException']):
+                # a modelled external class whose truth value we have no model for: never guess
+                raise Unsupported('truth value of a %s object is not modelled' % v.cls.name)
             return True
         if isinstance(v, SStr):
             raise Unsupported('truthiness of opaque str')
@@ -806,11 +813,15 @@ class Engine:
         self.worklist = [[]]
         npaths = 0
         errors = []
+        self.deadline = time.time() + self.harness_budget_s
         while self.worklist:
             script = self.worklist.pop()
             npaths += 1
             if npaths > max_paths:
                 errors.append('path limit %d exceeded' % max_paths)
+                break
+            if time.time() > self.deadline:
+                errors.append('time budget of %ds for this harness exceeded after %d paths (undecided)' % (self.harness_budget_s, npaths - 1))
                 break
             self.path = Path(self, script)
             self.yield_handlers = []
